@@ -119,7 +119,7 @@ func shortFn(s string) string {
 
 func externKey(fn *ssa.Function) string {
 	if recv := fn.Signature.Recv(); recv != nil {
-		return "(" + recv.Type().String() + ")." + fn.Name()
+		return "(" + types.Unalias(recv.Type()).String() + ")." + fn.Name()
 	}
 	if fn.Pkg != nil {
 		return fn.Pkg.Pkg.Path() + "." + fn.Name()
@@ -132,7 +132,7 @@ func (ex *Ex) inlineCall(fr *Frame, st *State, ins ssa.Instruction, callee *ssa.
 	nf.Args = args
 	nf.Bindings = bindings
 	nf.Entry = st.Clone()
-	if ex.LevelChk && fr.Lvl != nil {
+	if fr.Lvl != nil {
 		nf.Lvl = Add(fr.Lvl, IntLit(1))
 	}
 	for i, p := range callee.Params {
@@ -177,7 +177,7 @@ func (ex *Ex) callByContract(fr *Frame, st *State, ins ssa.Instruction, callee *
 		}
 	}
 	cf.Entry = pre
-	if ex.LevelChk && fr.Lvl != nil {
+	if fr.Lvl != nil {
 		cf.Lvl = Add(fr.Lvl, IntLit(1))
 	}
 	envPre := ex.newEnv(cf, st)
@@ -221,6 +221,16 @@ func (ex *Ex) callByContract(fr *Frame, st *State, ins ssa.Instruction, callee *
 	}
 	// havoc assigns
 	ex.havocAssigns(cf, st, ctr, args)
+	// ghost level state written by the callee
+	for _, gname := range []string{"$cap", "$dom"} {
+		for _, en := range ctr.Ensures {
+			ids := map[string]bool{}
+			exprIdents(en.E, ids)
+			if ids[gname] {
+				st.ghost[gname] = SV{T: ex.FreshVar("g"+gname, SInt), Ty: tInt}
+			}
+		}
+	}
 	res, svs := ex.freshResults(shortFn(cname), callee.Signature)
 	envPost := ex.newEnv(cf, st)
 	envPost.pkgName = ctr.PkgName
@@ -243,10 +253,6 @@ func (ex *Ex) callByContract(fr *Frame, st *State, ins ssa.Instruction, callee *
 			unsupp("contract of %s: %v", cname, err)
 		}
 		st.Assume(t)
-	}
-	// C16 ghost level contracts
-	if ex.LevelChk && ctr.Level != nil {
-		ex.assumeLevelPost(cf, st, ctr, args, svs)
 	}
 	// type invariants of pointer results
 	for _, sv := range svs {
